@@ -73,17 +73,39 @@ theorem count_tracks_of {c : Cfg} {hs : List Nat} {s : State} (hok : ShapeOk c)
     (hr : Reachable c hs s) (h1 : 1 ≤ total s) : s.last.val + 1 = total s ∧ s.last.val ≤ c.ceil :=
   ⟨(hr.wf1 hok).track h1, (hr.wf1 hok).ceil h1⟩
 
+/-- The invariant `J` in full: a `0` that is not the last message is out of reach of every
+holder, directly or (for a lent handle) through a borrower that will be joined. -/
+theorem J_lent_of {c : Cfg} {hs : List Nat} {s : State} (hok : ShapeOk c) (hr : Reachable c hs s)
+    {i : Nat} {m : Msg} (hi : s.hist[i]? = some m) (hz : m.val = 0)
+    {t : Nat} {th : Thread} (ht : s.thr[t]? = some th) (ho : 1 ≤ owned th) :
+    i < th.coh ∨ ∃ (w : Nat) (wh : Thread), s.thr[w]? = some wh ∧ t ∈ wh.refs ∧ i < wh.coh :=
+  (hr.wf1 hok).J i m hi hz t th ht ho
+
 theorem J_of {c : Cfg} {hs : List Nat} {s : State} (hok : ShapeOk c) (hr : Reachable c hs s)
     {t : Nat} {th : Thread} (ht : s.thr[t]? = some th) (ho : 1 ≤ owned th)
-    {i : Nat} {m : Msg} (hi : s.hist[i]? = some m) (hc : th.coh ≤ i) : 1 ≤ m.val :=
-  (hr.wf1 hok).J t th ht ho i m hi hc
+    (hnp : pinned s t = false)
+    {i : Nat} {m : Msg} (hi : s.hist[i]? = some m) (hc : th.coh ≤ i) : 1 ≤ m.val := by
+  rcases Nat.eq_zero_or_pos m.val with hz | hz
+  · rcases J_lent_of hok hr hi hz ht ho with h1 | ⟨w, wh, hw, hm, _⟩
+    · omega
+    · exact absurd hm (not_mem_of_not_pinned hnp hw)
+  · exact hz
+
+/-- A borrowed reference never dangles: its lender still holds a handle and nothing is freed. -/
+theorem lent_alive_of {c : Cfg} {hs : List Nat} {s : State} (hok : ShapeOk c) (hr : Reachable c hs s)
+    {w : Nat} {wh : Thread} (hw : s.thr[w]? = some wh) {u : Nat} (hu : u ∈ wh.refs) :
+    (∃ uh, s.thr[u]? = some uh ∧ 1 ≤ uh.handles) ∧ s.freed = 0 := by
+  refine ⟨(hr.wf1 hok).Rf w wh u hw hu, ?_⟩
+  have hne : wh.refs ≠ [] := by intro e; rw [e] at hu; simp at hu
+  exact ((hr.wf1 hok).user_facts hw (Or.inr hne)).1
 
 theorem unique_sound_of {c : Cfg} {hs : List Nat} {s : State} (hok : ShapeOk c)
     (hr : Reachable c hs s) {t : Nat} {th : Thread} (ht : s.thr[t]? = some th)
     {k : Kont} {code : List AStep} {old : Nat} (hpc : th.pc = some ⟨k, code, old⟩)
     (hk : k = .mutate ∨ k = .unwrap) (hret : localRet code = some (.bool true)) :
     total s = 1 ∧ th.handles = 1 ∧ s.freed = 0 ∧
-      ∀ (u : Nat) uh, u ≠ t → s.thr[u]? = some uh → owned uh = 0 := by
+      (∀ (u : Nat) uh, u ≠ t → s.thr[u]? = some uh → owned uh = 0) ∧
+      (∀ (u : Nat) uh, s.thr[u]? = some uh → uh.refs = []) := by
   have hx : excl th = true := by
     rcases hk with rfl | rfl <;> simp [excl, hpc, hret]
   obtain ⟨h1, h2, h3⟩ := (hr.wf1 hok).X t th ht hx
@@ -91,7 +113,8 @@ theorem unique_sound_of {c : Cfg} {hs : List Nat} {s : State} (hok : ShapeOk c)
     rw [h2]; rcases hk with rfl | rfl <;> simp [exclOwn, hpc]
   have hh : th.handles = 1 := by
     rcases hk with rfl | rfl <;> simpa [owned, inflight, hpc] using hown
-  refine ⟨?_, hh, h3, fun u uh hu huh => (h1 u uh hu huh).1⟩
+  refine ⟨?_, hh, h3, fun u uh hu huh => (h1 u uh hu huh).1,
+    fun u uh huh => (hr.wf1 hok).excl_no_refs ht hx huh⟩
   unfold total
   rw [sum_eq_of_others_zero (s.thr.map owned) t (owned th) (by simp [ht])]
   · exact hown
@@ -114,10 +137,10 @@ theorem all_dropped_freed_of {c : Cfg} {hs : List Nat} {s : State} (hok : ShapeO
 
 theorem K_of {c : Cfg} {hs : List Nat} {s : State} (hok : ProtoOk c) (hr : Reachable c hs s)
     (hf : s.freed = 0) {u : Nat} {uh : Thread} (hu : s.thr[u]? = some uh) (ho : owned uh = 0)
-    (hx : excl uh = false) :
+    (hrf : uh.refs = []) (hx : excl uh = false) :
     vat s.acc u ≤ vat s.last.rel u ∨
     ∃ (t : Nat) (th : Thread), s.thr[t]? = some th ∧ 1 ≤ owned th ∧ vat s.acc u ≤ vat th.view u :=
-  (hr.wf2 hok).K hf u uh hu ho hx
+  (hr.wf2 hok).K hf u uh hu ho hrf hx
 
 theorem race_free_of {c : Cfg} {hs : List Nat} {s : State} (hok : ProtoOk c)
     (hr : Reachable c hs s) : s.race = false := (hr.wf2 hok).race
@@ -155,11 +178,15 @@ theorem reads_see_last_write_of {c : Cfg} {hs : List Nat} {s s' : State} (hok : 
   rename_i th ht
   split at hstep
   · simp at hstep
-  rename_i hidle
-  obtain ⟨hpc, hh⟩ := idle_of_not hidle
-  simp only [Option.some.injEq] at hstep
-  refine ⟨th, { tick th t with res := th.res ++ [s.pval] }, ht, ?_, rfl, ?_, hrace⟩
-  · subst hstep; exact get_set_self ht
-  · exact (hr.wf2 hok).R t th ht (by simp [owned]; omega)
+  split at hstep
+  · rename_i hcan
+    simp only [Option.some.injEq] at hstep
+    refine ⟨th, { tick th t with res := th.res ++ [s.pval] }, ht, ?_, rfl, ?_, hrace⟩
+    · subst hstep; exact get_set_self ht
+    · refine (hr.wf2 hok).R t th ht ?_
+      rcases canUse_iff.1 hcan with h' | h'
+      · exact Or.inl (by simp [owned]; omega)
+      · exact Or.inr h'
+  · simp at hstep
 
 end HipVerif.Model.Conc
